@@ -87,7 +87,11 @@ def run_shard(params, rec):
         # collapse immediate repeats (a faulting instruction is not re-entered in the reference)
         starts = [o for o, ln, t, nm in prog.instrs if nm != "LOOPTAIL"]
         executed = sorted(set(trace))
-        never = [a for a in starts if a not in executed] + [prog.end + 0x40, L.CODE + 0x800]
+        # an instruction in a branch delay slot never starts a block (a split there would separate it
+        # from its branch): breakpoints on delay slots are outside what the jitter supports
+        never = [a for a in starts if a not in executed and a not in prog.delay_slots] + \
+            [prog.end + 0x40, L.CODE + 0x800]
+        executed = [a for a in executed if a not in prog.delay_slots]
         # ---- scripts
         cands = executed[:]
         rng.shuffle(cands)
